@@ -480,7 +480,8 @@ class MapEngine:
                         else:
                             qm = nanite.QMap(nanite.load_group(p))
                         grp = qm.group
-                        ref = {k: {"rating": None, "stale": False}
+                        ref = {k: {"rating": None, "stale": False,
+                                   "raw_prep": core.digest([None, None])}
                                for k in range(len(grp))}
                         v = check_load(list(grp), [p], None,
                                        cb if op["via"] == "path" else None,
@@ -648,6 +649,18 @@ class MapEngine:
     def after_change(d, r, hash_before, prep_before):
         """Reference bookkeeping for the rating of one curve."""
         prep_after = prep_state(d)
+        raw_after = core.digest([d.fit_properties.get("preprocessing"),
+                                 d.fit_properties.get(
+                                     "preprocessing_options")])
+        first_explicit = r.get("raw_prep") not in (None, raw_after) \
+            and prep_after == prep_before
+        r["raw_prep"] = raw_after
+        if first_explicit and r["rating"] is not None:
+            # the (empty) pipeline was requested explicitly for the first
+            # time: whether that counts as a preprocessing change is not
+            # said; the last rating and NaN are both accepted
+            r["stale"] = True
+            return
         if prep_after != prep_before:
             # "since its last preprocessing change"
             r["rating"] = None
